@@ -175,7 +175,7 @@ package engine
 //@   requires knowledge != nil ==> knowledge.WorkingMemory != nil && KBInv(knowledge) && WMInv(knowledge.WorkingMemory)
 //@   requires ghostWF() && $depth == 0 && !$inAction && treeWF()
 //@   nopanic
-//@   modifies @memo, $exprRes, $varRes, $atomRes, @reslog, $resetAllN, @setlog, @ctxghost, alloc, ast.BuiltInFunctions.*, ast.KnowledgeBase.DataContext, ast.RuleEntry.Retracted, $stamp, $evalStamp, $evalCnt, $evalCand, $evalFailed, $addFailed, $sinceExec, $memResetN
+//@   modifies @memo, $exprRes, $varRes, $atomRes, @reslog, $resetAllN, @setlog, @ctxghost, alloc, ast.BuiltInFunctions.*, ast.KnowledgeBase.DataContext, ast.RuleEntry.Retracted, $stamp, $evalStamp, $evalCnt, $evalCand, $evalFailed, $addFailed, $sinceExec, $memResetN, $atomErrN
 //@   ghost_entry $stamp = $stamp + 1
 //@   ghost_entry $evalFailed = false
 //@   ensures[C11,C16] members: err == nil ==> (forall k int :: 0 <= k && k < len(res) ==> res[k] != nil && candNow(res[k]) && !res[k].Deleted)
